@@ -176,6 +176,9 @@ class Checker:
                 self.violation(ops, i, e, oo, meta)
                 return
 
+    def _history_replay(self, prog, step, exp):
+        return _history_replay_impl(self.ex, prog, step, exp)
+
     def violation(self, ops, step, exp, observed, meta=None, note=None):
         st = self.stats
         v = {"property": self.pid, "build": self.build, "program": list(ops), "step": step,
@@ -214,8 +217,51 @@ class Checker:
                     v["note"] = ((v.get("note") or "") + " [dies only after the %d programs the same process ran before: see 'sequence']" % (len(v["sequence"]) - 1)).strip()
                     confirmed = True
                 if not confirmed:
+                    # a wrong answer that the program does not give alone may depend on what the same process ran before (memory the
+                    # implementation reads without having written it, state leaking between objects): everything this process has
+                    # run is fed to fresh processes, one program at a time; the same rejected answer at the same place in two of
+                    # them confirms it, and the sequence is the counterexample
+                    seq = self._history_replay(";".join(ops), step, exp)
+                    if seq is not None:
+                        v["sequence"] = seq
+                        v["note"] = ((v.get("note") or "") + " [wrong only after the %d programs the same process ran before: see 'sequence']" % (len(seq) - 1)).strip()
+                        confirmed = True
+                if not confirmed:
                     raise MachineryError("violation did not reproduce in a fresh process: %s" % ops)
             st.violations.append(v)
+
+
+def _sequence_answer(build, seq, prog, step, exp, stop_at=None):
+    """feed seq to a fresh executor one program at a time; -> index of the first occurrence of prog whose answer the expectation
+    rejects (a death counts), or None"""
+    fresh = execpool.Executor(build)
+    try:
+        for i, p in enumerate(seq if stop_at is None else seq[:stop_at + 1]):
+            alone = [None]
+            d2, hung = fresh._run_batch([p], 0, alone)
+            if d2 != 1:
+                return i if p == prog else None
+            o = alone[0]
+            if p == prog and (len(o) <= step or not admits(exp, o[step])):
+                return i
+    finally:
+        fresh._kill()
+    return None
+
+
+def _history_replay_impl(ex, prog, step, exp):
+    if ex.history_bytes > execpool.HISTORY_CAP:
+        return None
+    hist = list(ex.history)
+    if prog not in hist:
+        return None
+    first = _sequence_answer(ex.build, hist, prog, step, exp)
+    if first is None:
+        return None
+    again = _sequence_answer(ex.build, hist, prog, step, exp, stop_at=first)
+    if again != first:
+        return None
+    return hist[:first + 1]
 
 
 def load_known():
@@ -434,12 +480,26 @@ def replay(path):
                     break
         finally:
             ex._kill()
-        print("sequence of %d programs in one process; recorded: the process dies at the last one" % len(v["sequence"]))
+        if v.get("observed") in ("CRASH", "HANG"):
+            print("sequence of %d programs in one process; recorded: the process dies at the last one" % len(v["sequence"]))
+            print("last    : %s" % v["sequence"][-1][:300])
+            if died is None:
+                print("replay: the current tree runs the whole sequence")
+                return 0
+            print("now     : the process dies at program %d of %d" % (died + 1, len(v["sequence"])))
+            print("VIOLATION property=%s replay=%s" % (v["property"], path))
+            return 1
+        print("sequence of %d programs in one process; recorded: the last one answers %r at step %d" % (len(v["sequence"]), v["observed"], v["step"]))
         print("last    : %s" % v["sequence"][-1][:300])
-        if died is None:
-            print("replay: the current tree runs the whole sequence")
+        exp = v["expected"]
+        if isinstance(exp, str) and exp.startswith("<predicate"):
+            print("the expectation of this record is a predicate: re-run ./check %s" % v["property"])
+            return 2
+        bad = _sequence_answer(v["build"], v["sequence"], v["sequence"][-1], v["step"], exp)
+        if bad is None:
+            print("replay: the current tree gives the expected observation")
             return 0
-        print("now     : the process dies at program %d of %d" % (died + 1, len(v["sequence"])))
+        print("now     : rejected answer at program %d of %d" % (bad + 1, len(v["sequence"])))
         print("VIOLATION property=%s replay=%s" % (v["property"], path))
         return 1
     ex = execpool.Executor(v["build"])
